@@ -101,8 +101,11 @@ class RecomputingDict(MutableMapping[RuleKey, AbstractStrategy]):
                     rule = x
                 try:
                     start_label = self.classdb.get_label(rule.comb_class)
+                    # same cleaning as RuleDBBase._clean_labels did when storing
                     nonempty_children = tuple(
-                        c for c in rule.children if not self.classdb.is_empty(c)
+                        c
+                        for c in rule.children
+                        if not (rule.possibly_empty and self.classdb.is_empty(c))
                     )
                     end_labels = tuple(
                         sorted(map(self.classdb.get_label, nonempty_children))
